@@ -108,14 +108,25 @@ func globalsOf(machine *vm.VirtualMachine, code *compiler.Code) string {
 }
 
 // what a rejected piece left in the compiler's main code: the instructions it had emitted before the rejection
-// (names of the opcodes), the global symbols it had declared, the code objects (functions) it had created
+// (names of the opcodes), the global symbols it had declared, the code objects (functions) it had created, how many of the
+// functions it opened directly in the main code were never closed (open: a function of the main code is closed when the
+// load of its function object has been emitted there; a rejection inside a function body leaves the compiler inside it),
+// and the size of the main code's constant table (a full table rejects whatever follows)
 func leftBehind(main *compiler.Code, n0, g0, f0 int) string {
 	var ops []string
+	loads := 0
 	for i := n0; i < main.InstructionCount(); {
 		info := op.GetInfo(main.Instruction(i))
 		name := info.Name
 		if name == "" {
 			name = fmt.Sprintf("OP%d", main.Instruction(i))
+		}
+		if (main.Instruction(i) == op.LoadConst || main.Instruction(i) == op.LoadClosure) && i+1 < main.InstructionCount() {
+			if k := int(main.Instruction(i + 1)); k < main.ConstantsCount() {
+				if _, isFn := main.Constant(k).(*compiler.Function); isFn {
+					loads++
+				}
+			}
 		}
 		ops = append(ops, name)
 		i += 1 + info.OperandCount
@@ -124,7 +135,17 @@ func leftBehind(main *compiler.Code, n0, g0, f0 int) string {
 	if len(ops) > 0 {
 		left = strings.Join(ops, ",")
 	}
-	return fmt.Sprintf(" left=%s syms=%d codes=%d", left, main.GlobalsCount()-g0, len(main.Flatten())-f0)
+	all := main.Flatten()
+	direct := 0
+	for _, c := range all[f0:] {
+		if c.Parent() == main {
+			direct++
+		}
+	}
+	if len(left) > 400 {
+		left = left[:400] + "..."
+	}
+	return fmt.Sprintf(" left=%s syms=%d codes=%d open=%d consts=%d", left, main.GlobalsCount()-g0, len(all)-f0, direct-loads, main.ConstantsCount())
 }
 
 func main() {
